@@ -2964,3 +2964,91 @@ impl Parser {
         self.state.bias_cache = None;
     }
 }
+
+// Verification hooks (additive; compiled only with `--cfg llg_verif`).
+// A canonical key of the *committed* parser state: exactly the parts a future
+// commit / mask computation can read (top lexer state, pending forced bytes,
+// and the Earley chart reachable from the top row through origin pointers).
+#[cfg(llg_verif)]
+impl ParserState {
+    fn verif_state_key(&self, out: &mut Vec<u64>) {
+        let sid = |s: StateID| (s.as_u32() as u64) * 2 + (s.has_lowest_match() as u64);
+        let top = self.lexer_state();
+        out.push(0xA1);
+        out.push(sid(top.lexer_state));
+        out.push(self.has_pending_lexeme_bytes() as u64);
+        out.push(self.lexer_stack_top_eos as u64);
+        out.push(self.parser_error.is_some() as u64);
+        let row_bytes = self.curr_row_bytes();
+        if row_bytes.first() == Some(&TokTrie::SPECIAL_TOKEN_MARKER) {
+            out.push(0xA2);
+            out.extend(row_bytes.iter().map(|b| *b as u64));
+        }
+        out.push(0xA3);
+        out.extend(
+            self.bytes[self.byte_to_token_idx.len()..]
+                .iter()
+                .map(|b| *b as u64),
+        );
+        // closure of rows reachable from the top row
+        let top_row = top.row_idx as usize;
+        let mut reach = std::collections::BTreeSet::new();
+        let mut work = vec![top_row];
+        let mut gptr = self.rows[top_row].grammar_stack_ptr;
+        let mut gchain = vec![];
+        while gptr.as_usize() > 0 {
+            let n = &self.scratch.grammar_stack[gptr.as_usize()];
+            gchain.push((
+                n.grammar_id.as_usize() as u64,
+                n.start_item.rhs_ptr().as_index() as u64,
+                n.start_item.start_pos(),
+                (n.token_horizon as u64).saturating_sub(self.token_idx as u64),
+            ));
+            work.push(n.start_item.start_pos());
+            gptr = n.back_ptr;
+        }
+        while let Some(r) = work.pop() {
+            if r >= self.rows.len() || !reach.insert(r) {
+                continue;
+            }
+            for i in self.rows[r].item_indices() {
+                let sp = self.scratch.items[i].start_pos();
+                if sp != r && !reach.contains(&sp) {
+                    work.push(sp);
+                }
+            }
+        }
+        let renum: std::collections::BTreeMap<usize, u64> = reach
+            .iter()
+            .enumerate()
+            .map(|(i, r)| (*r, i as u64))
+            .collect();
+        out.push(0xA4);
+        out.push(sid(self.rows[top_row].lexer_start_state));
+        for (gid, rhs, sp, hor) in gchain {
+            out.push(0xA5);
+            out.push(gid);
+            out.push(rhs);
+            out.push(*renum.get(&sp).unwrap_or(&u64::MAX));
+            out.push(hor);
+        }
+        for r in reach.iter() {
+            out.push(0xA6);
+            for i in self.rows[*r].item_indices() {
+                let it = self.scratch.items[i];
+                out.push(it.rhs_ptr().as_index() as u64);
+                out.push(*renum.get(&it.start_pos()).unwrap_or(&u64::MAX));
+                if self.scratch.parametric {
+                    out.push(self.scratch.item_args[i].0);
+                }
+            }
+        }
+    }
+}
+
+#[cfg(llg_verif)]
+impl Parser {
+    pub fn verif_state_key(&self, out: &mut Vec<u64>) {
+        self.state.verif_state_key(out)
+    }
+}
